@@ -151,6 +151,8 @@ def case_spec(draw, algo=None):
         held = draw(st.lists(st.sampled_from(tickers), min_size=0, max_size=len(tickers), unique=True))
         spec["live"] = rand_weights(held, short=draw(st.booleans()), total=draw(st.sampled_from([1.0, 0.9, 0.5])))
         spec["weights"] = rand_weights(sel, short=draw(st.booleans()), total=draw(st.sampled_from([1.0, 0.7])))
+        # a capital flow booked earlier in the same stack (CapitalFlow before LimitDeltas) leaves the tree with a pending change when the algo runs
+        spec["pending_flow"] = draw(st.sampled_from([None, None, 0.5, 1.0, -0.3]))
         if draw(st.booleans()):
             p["limit"] = draw(st.sampled_from([0.0, 0.01, 0.05, 0.1, 0.3, 1.0]))
         else:
@@ -395,6 +397,14 @@ def case_weigh(ctx, spec):
         return {"nontrivial": capped, "labels": labs + (["capped"] if capped else [])}
     if name == "LimitDeltas":
         live = {c: strat.children[c].weight for c in strat.children}
+        if spec.get("pending_flow"):
+            # the live weights the algo must measure against are those after the flow, although nothing has refreshed the tree yet
+            v_ = strat.value
+            vals_ = {c: strat.children[c].value for c in strat.children}
+            amt_ = spec["pending_flow"] * v_
+            A.CapitalFlow(amt_)(strat)
+            live = {c: vals_[c] / (v_ + amt_) for c in vals_}
+            labs.append("pending_flow")
         tw0 = dict(spec["weights"])
         call(A.LimitDeltas(p["limit"]))
         w = wdict(strat.temp["weights"])
@@ -414,7 +424,7 @@ def case_weigh(ctx, spec):
                 if k not in w or abs(w[k] - exp) > 1e-9:
                     raise Violation("LimitDeltas(%s): %s live %r target %r -> %r, expected %r" % (p["limit"], k, cur, tgt, w.get(k), exp), signature=sig + ":limit")
             else:
-                if k in tw0 and w.get(k) != tw0[k]:
+                if k in tw0 and (w.get(k) is None or abs(w[k] - tw0[k]) > 1e-12):
                     raise Violation("LimitDeltas(%s) changed %s although its delta %r is within the limit: %r -> %r" % (p["limit"], k, tgt - cur, tw0[k], w.get(k)), signature=sig + ":changed")
         return {"nontrivial": limited, "labels": labs + (["limited"] if limited else [])}
     if name == "TargetVol":
